@@ -1,8 +1,7 @@
 SPECIFICATION Spec
 CONSTANTS
-  MaxOps = 4
+  MaxOps = 2
   ObjNames = {"T1", "S2", "L2", "I2"}
   CfgNames = {"ap", "ah", "uh"}
 INVARIANT PrintStable
-INVARIANT PrintIsFunction
 CHECK_DEADLOCK FALSE
